@@ -224,7 +224,8 @@ def run(res, tier, seed):
             # one harness process each (the marker of a transfer may be named after the process): the last request of the batch is a
             # refused delivery through `ent`
             tail = [c for c in big_tail if c.entry == ent][:1]
-            groups.append((None, [(big_tree, [c for c in big_cases if c not in tail] + tail)]))
+            # ... on a tree directory of its own: the process that ends first removes its directory
+            groups.append((None, [(big_tree.clone(), [c for c in big_cases if c not in tail] + tail)]))
         out = [None] * len(groups)
         def work(i):
             wm = WITH_MODEL and not getattr(groups[i][1][0][0], 'no_model', False)
